@@ -135,7 +135,9 @@ class FileResponseMixin:
     ) -> Dict[str, str]:
         headers: Dict[str, str] = {
             "accept-ranges": "bytes",
-            "last-modified": formatdate(stat_result.st_mtime, usegmt=True),
+            # whole seconds, truncated like the If-Modified-Since comparison: formatdate
+            # rounds to the microsecond and could name the following second
+            "last-modified": formatdate(int(stat_result.st_mtime), usegmt=True),
             "etag": f'"{self.generate_etag(stat_result)}"',
         }
         if download_name or content_type == "application/octet-stream":
@@ -171,7 +173,7 @@ class FileResponseMixin:
         """
         return (
             if_range_raw_line == f'"{cls.generate_etag(stat_result)}"'
-        ) or if_range_raw_line == formatdate(stat_result.st_mtime, usegmt=True)
+        ) or if_range_raw_line == formatdate(int(stat_result.st_mtime), usegmt=True)
 
     @staticmethod
     def parse_range(
